@@ -404,6 +404,29 @@ func (c *caseRunner) checkAccepted(p *syncer.Proof, probes [][]byte, what string
 		}
 		return ""
 	})
+	if len(probes) > 0 {
+		k0 := probes[0]
+		n := 3
+		c.ask(fmt.Sprintf("iter %s %d", hx(k0), n), "spec-model-iterate-wrong", func(ans string) string {
+			c.res.Count("iterprobe:" + strings.Fields(ans)[0])
+			if ans == "unresolved" {
+				return ""
+			}
+			i := sort.Search(len(c.srv.keys), func(i int) bool { return bytes.Compare(c.srv.keys[i], k0) >= 0 })
+			var items []string
+			for j := i; j < len(c.srv.keys) && j < i+n; j++ {
+				items = append(items, hx(c.srv.keys[j])+":"+hx(c.srv.ref[string(c.srv.keys[j])]))
+			}
+			want := "items ."
+			if len(items) > 0 {
+				want = "items " + strings.Join(items, ",")
+			}
+			if ans != want {
+				return fmt.Sprintf("model iteration from %s on accepted proof (%s) gives `%s`, tree has `%s`", hx(k0), what, trunc(ans), trunc(want))
+			}
+			return ""
+		})
+	}
 	client := mkvs.NewWithRoot(&fixedSyncer{p}, nil, c.srv.root)
 	defer client.Close()
 	for _, k := range probes {
@@ -547,6 +570,16 @@ func (c *caseRunner) runLine(line string) {
 			for _, k := range asked {
 				c.ask("get "+hx(k), "honest-proof-does-not-resolve", expect(showAns(s.ref[string(k)])))
 			}
+			// the client-side iterator over the rebuilt tree yields the items the request covers
+			var items []string
+			for _, ak := range asked {
+				items = append(items, hx(ak)+":"+hx(s.ref[string(ak)]))
+			}
+			want := "items ."
+			if len(items) > 0 {
+				want = "items " + strings.Join(items, ",")
+			}
+			c.ask(fmt.Sprintf("iter %s %d", hx(k), len(asked)), "honest-proof-does-not-resolve", expect(want))
 		}
 	case "incl":
 		v := atoi(w[1])
